@@ -170,7 +170,7 @@ theorem head_test (s : St) (h : MqInv s) :
   rw [and_bit_eq_zero _ _ (recv_lt s h), ← head_flag s h]
   cases s.flags.getLsbD s.receivep.toNat <;> simp
 
--- >>> spliced part
+
 
 /-! ### the initial state -/
 
@@ -551,7 +551,7 @@ theorem inv_write (s : St) (h : MqInv s) (i : Nat) (sp : Bool) (v : Nat) (sl : B
   have hk : Held s i sl k := h.senders i _ hpc
   obtain ⟨k1, k2, k3, k4, k5⟩ := hk
   obtain ⟨c1, c2⟩ := counts_set s.senders i (.hasSlot sl k) (.wrote sl k) hpc
-  simp only [holdsPerm, isFailed, Bool.false_eq_true, if_false, if_true] at c1 c2
+  simp only [holdsPerm, isFailed, Bool.false_eq_true, if_false] at c1 c2
   simp only [stepSender]
   refine { h with nthreads := ?_, counter := ?_, bound := ?_, senders := ?_, inflight := ?_, recv := ?_ }
   · show (s.senders.set i _).length ≤ 128; rw [List.length_set]; exact hn
@@ -603,7 +603,7 @@ theorem inv_send (s : St) (h : MqInv s) (i : Nat) (sp : Bool) (v : Nat) (sl : Bi
     rw [slot_of_offset _ _ h.mpos]; exact k4
   have hlt : k % s.qlen.toNat < 32 := by have := Nat.mod_lt k h.qpos; omega
   obtain ⟨c1, c2⟩ := counts_set s.senders i (.wrote sl k) .idle hpc
-  simp only [holdsPerm, isFailed, Bool.false_eq_true, if_false, if_true] at c1 c2
+  simp only [holdsPerm, isFailed, Bool.false_eq_true, if_false] at c1 c2
   simp only [stepSender, hslot]
   refine { h with nthreads := ?_, counter := ?_, bound := ?_, flags := ?_, sentlt := ?_, recvdSent := ?_,
                   senders := ?_, inflight := ?_, recv := ?_ }
@@ -689,5 +689,256 @@ theorem mq_inv_reachable (s : St) (h : MqInv s) (acts : List Act) : MqInv (run s
 theorem mq_inv_all (depth msgLen n : Nat) (hd1 : 1 ≤ depth) (hd32 : depth ≤ 32) (hm1 : 1 ≤ msgLen)
     (hm16 : msgLen < 65536) (hn : n + 32 < 128) (acts : List Act) : MqInv (run (init depth msgLen n) acts) :=
   mq_inv_reachable _ (mq_inv_init depth msgLen n hd1 hd32 hm1 hm16 (by omega)) acts
+
+/-! ### the property's clauses as corollaries of the invariant
+
+All of them hold in every reachable state (`mq_inv_reachable` / `mq_inv_all`), i.e. under every interleaving. -/
+
+/-- the *outstanding* tickets `released … claimed-1` (claimed, in flight, or held by the receiver) occupy pairwise
+    different buffers -/
+theorem outstanding_slots_distinct (s : St) (h : MqInv s) (k k' : Nat) (hk : s.released ≤ k ∧ k < s.claimed)
+    (hk' : s.released ≤ k' ∧ k' < s.claimed) (hne : k ≠ k') : k % s.qlen.toNat ≠ k' % s.qlen.toNat :=
+  slots_differ s h k k' hk hk' hne
+
+/-- a pointer held by sender `i` is the buffer of an outstanding, unsent ticket granted to `i` -/
+theorem sender_holds (s : St) (h : MqInv s) (i : Nat) (sl : BitVec 8) (hh : holds s (.sender i) = some sl) :
+    ∃ k, Held s i sl k := by
+  have hh : (s.senders[i]?).bind SPc.slot? = some sl := hh
+  cases hpc : s.senders[i]? with
+  | none => rw [hpc] at hh; cases hh
+  | some pc =>
+    rw [hpc] at hh
+    have hok := h.senders i pc hpc
+    cases pc with
+    | hasSlot sl' k => injection hh with hh; subst hh; exact ⟨k, hok⟩
+    | wrote sl' k => injection hh with hh; subst hh; exact ⟨k, hok.1⟩
+    | idle => cases hh
+    | failed => cases hh
+    | gotPerm => cases hh
+    | loaded v => cases hh
+
+/-- a pointer held by the receiver is the buffer of the oldest unreleased ticket, which was sent -/
+theorem receiver_holds (s : St) (h : MqInv s) (sl : BitVec 8) (hh : holds s .receiver = some sl) :
+    ∃ k, k + 1 = s.received ∧ s.released = k ∧ sl.toNat = k % s.qlen.toNat ∧ s.sent k = true := by
+  have hh : s.recv.slot? = some sl := hh
+  have hr := h.recv
+  cases hrecv : s.recv with
+  | idle => rw [hrecv] at hh; cases hh
+  | polled b => rw [hrecv] at hh; cases hh
+  | hold sl' k =>
+    rw [hrecv] at hh hr; injection hh with hh; subst hh
+    exact ⟨k, hr.1, hr.2.1, hr.2.2.1, hr.2.2.2⟩
+  | read sl' k v =>
+    rw [hrecv] at hh hr; injection hh with hh; subst hh
+    exact ⟨k, hr.1, hr.2.1, hr.2.2.1, hr.2.2.2.1⟩
+
+theorem ne_of_toNat_ne {a b : BitVec 8} (h : a.toNat ≠ b.toNat) : a ≠ b := fun e => h (by rw [e])
+
+/-- **no buffer is handed out twice / exclusive ownership**: two different parties (two senders, or a sender and
+    the receiver) never hold pointers to the same buffer -/
+theorem exclusive_ownership (s : St) (h : MqInv s) (p q : Party) (a b : BitVec 8) (hpq : p ≠ q)
+    (hp : holds s p = some a) (hq : holds s q = some b) : a ≠ b := by
+  have ho1 := h.order1; have ho2 := h.order2
+  have sr : ∀ i sl slr, holds s (.sender i) = some sl → holds s .receiver = some slr → sl ≠ slr := by
+    intro i sl slr h1 h2
+    obtain ⟨k, k1, k2, _, k4, _⟩ := sender_holds s h i sl h1
+    obtain ⟨kr, r1, r2, r3, _⟩ := receiver_holds s h slr h2
+    apply ne_of_toNat_ne
+    rw [k4, r3]
+    exact slots_differ s h k kr ⟨by omega, k2⟩ ⟨by omega, by omega⟩ (by omega)
+  cases p with
+  | sender i =>
+    cases q with
+    | sender j =>
+      have hij : j ≠ i := fun e => hpq (by rw [e])
+      obtain ⟨k, hk⟩ := sender_holds s h i a hp
+      obtain ⟨k', hk'⟩ := sender_holds s h j b hq
+      have hne := tickets_differ s i j a b k k' hij hk hk'
+      apply ne_of_toNat_ne
+      rw [hk.2.2.2.1, hk'.2.2.2.1]
+      exact slots_differ s h k k' ⟨by have := hk.1; omega, hk.2.1⟩ ⟨by have := hk'.1; omega, hk'.2.1⟩ (Ne.symm hne)
+    | receiver => exact sr i a b hp hq
+  | receiver =>
+    cases q with
+    | sender j => exact (sr j b a hq hp).symm
+    | receiver => exact absurd rfl hpq
+
+/-- **for C07** — (1) two claimers never hold the same slot; (2) a claimer's slot differs from a slot the
+    receiver still holds (so the plain payload accesses of different parties never touch the same buffer) -/
+theorem mq_no_adjacent_conflict (s : St) (h : MqInv s) :
+    (∀ i j a b, i ≠ j → holds s (.sender i) = some a → holds s (.sender j) = some b → a ≠ b) ∧
+    (∀ i a b, holds s (.sender i) = some a → holds s .receiver = some b → a ≠ b) :=
+  ⟨fun i j a b hij hp hq => exclusive_ownership s h (.sender i) (.sender j) a b (fun e => hij (by injection e)) hp hq,
+   fun i a b hp hq => exclusive_ownership s h (.sender i) .receiver a b (fun e => Party.noConfusion e) hp hq⟩
+
+/-- the buffer a successful compare-exchange is about to hand out is not the buffer of any outstanding ticket -/
+theorem claim_hands_out_unowned (s : St) (h : MqInv s) (i : Nat) (w : BitVec 8)
+    (hpc : s.senders[i]? = some (.loaded w)) (hw : w = s.sendp) (k : Nat) (hk : s.released ≤ k ∧ k < s.claimed) :
+    k % s.qlen.toNat ≠ w.toNat := by
+  have hb := h.bound; have ho1 := h.order1; have ho2 := h.order2
+  have hperm : 1 ≤ nPerm s.senders := by
+    have e := (counts_set s.senders i (.loaded w) .idle hpc).1
+    simp only [holdsPerm, Bool.false_eq_true, if_false, if_true] at e
+    omega
+  rw [hw, h.sendp]
+  intro e
+  have := window_inj' s.qlen.toNat k s.claimed s.released hk.1 (by omega) (by omega) (by omega) e
+  omega
+
+/-- the undefined shifts of the C code (`1 << n` with `n ≥ 32`) are never executed -/
+theorem shifts_defined (s : St) (h : MqInv s) :
+    s.receivep.toNat < 32 ∧ ∀ p sl, holds s p = some sl → sl.toNat < 32 := by
+  refine ⟨recv_lt s h, ?_⟩
+  intro p sl hp
+  have hq := h.q32
+  cases p with
+  | sender i =>
+    obtain ⟨k, hk⟩ := sender_holds s h i sl hp
+    have := Nat.mod_lt k h.qpos
+    rw [hk.2.2.2.1]; omega
+  | receiver =>
+    obtain ⟨k, _, _, r3, _⟩ := receiver_holds s h sl hp
+    have := Nat.mod_lt k h.qpos
+    rw [r3]; omega
+
+/-- `messageq_receive` succeeds exactly when the oldest unreceived ticket exists and has been sent -/
+theorem receive_succeeds_iff (s : St) (h : MqInv s) :
+    ((stepReceive s).recv ≠ .idle) ↔ (s.received < s.claimed ∧ s.sent s.received = true) := by
+  have ht := head_test s h
+  unfold stepReceive
+  split
+  · rename_i hz
+    constructor
+    · intro e; exact absurd rfl e
+    · intro c; exact absurd c (ht.mp hz)
+  · rename_i hnz
+    constructor
+    · intro _
+      by_cases c : s.received < s.claimed ∧ s.sent s.received = true
+      · exact c
+      · exact absurd (ht.mpr c) hnz
+    · intro _ e; exact RPc.noConfusion e
+
+/-- **messages arrive in claim order**: a successful receive returns the buffer of ticket number `received` — the
+    oldest ticket not yet handed to the receiver — and that ticket had been claimed and sent; the log of returned
+    tickets is 0, 1, 2, … -/
+theorem fifo_claim_order (s : St) (h : MqInv s) (hne : (stepReceive s).recv ≠ .idle) :
+    (stepReceive s).recv = .hold s.receivep s.received ∧
+    s.receivep.toNat = s.received % s.qlen.toNat ∧ s.received < s.claimed ∧ s.sent s.received = true ∧
+    (stepReceive s).recvLog = List.range (s.received + 1) := by
+  have hs := (receive_succeeds_iff s h).mp hne
+  refine ⟨?_, h.receivep, hs.1, hs.2, ?_⟩
+  · unfold stepReceive at hne ⊢
+    split
+    · rename_i hz; rw [if_pos hz] at hne; exact absurd rfl hne
+    · rfl
+  · unfold stepReceive at hne ⊢
+    split
+    · rename_i hz; rw [if_pos hz] at hne; exact absurd rfl hne
+    · show s.recvLog ++ [s.received] = _
+      rw [h.recvLog, List.range_succ]
+
+/-- **every message is received at most once, and only messages that were sent**: the tickets returned so far are
+    exactly 0 … received-1, each once, each of them claimed and sent -/
+theorem exactly_once (s : St) (h : MqInv s) :
+    s.recvLog = List.range s.received ∧ s.recvLog.Nodup ∧
+    ∀ k ∈ s.recvLog, s.sent k = true ∧ k < s.claimed := by
+  refine ⟨h.recvLog, by rw [h.recvLog]; exact List.nodup_range, ?_⟩
+  intro k hk
+  rw [h.recvLog, List.mem_range] at hk
+  exact ⟨h.recvdSent k hk, by have := h.order2; omega⟩
+
+/-- **the receiver reads what the claimer wrote before the send** -/
+theorem payload_intact (s : St) (h : MqInv s) (sl : BitVec 8) (k : Nat) (hr : s.recv = .hold sl k) (poll : Bool) :
+    (step s (.recv poll)).recv = .read sl k (s.written k) ∧ s.sent k = true := by
+  have hrecv := h.recv; rw [hr] at hrecv
+  obtain ⟨a, b, c, d⟩ := hrecv
+  have ho2 := h.order2
+  have hp : s.payload sl.toNat = s.written k := by
+    rw [c]; exact h.inflight k (by omega) (by omega) d
+  refine ⟨?_, d⟩
+  simp only [step, hr, stepRecv, hp]
+
+/-- **claim never hands out more buffers than the queue holds** (even counting claims that already hold a
+    permission but have not yet fixed their slot) -/
+theorem claim_bounded (s : St) (h : MqInv s) :
+    s.claimed - s.released ≤ s.qlen.toNat ∧ s.claimed - s.released + nPerm s.senders ≤ s.qlen.toNat :=
+  ⟨by have := h.bound; omega, h.bound⟩
+
+/-- **claim fails only if no buffer was free at that instant, counting claims in progress**: at a failing
+    fetch_sub, outstanding buffers + permissions held by claims in progress + other failing claims inside their
+    window already use up the whole capacity -/
+theorem claim_fails_only_if_full (s : St) (h : MqInv s) (i : Nat) (hpc : s.senders[i]? = some .idle)
+    (sp : Bool) (v : Nat) (hfail : (step s (.sender i sp v)).senders[i]? = some .failed) :
+    s.qlen.toNat ≤ (s.claimed - s.released) + nPerm s.senders + nFail s.senders := by
+  have hlen := lt_of_getElem? hpc
+  have hc := h.counter; have ho1 := h.order1; have ho2 := h.order2
+  have hgr : granted s.signedRead s.numFree = decide (0 < s.numFree.toInt) := by rw [h.signed]; rfl
+  simp only [step, hpc, stepSender, hgr] at hfail
+  rw [getElem?_set' _ _ _ _ hlen, if_pos rfl] at hfail
+  by_cases hg : 0 < s.numFree.toInt
+  · simp only [hg, decide_true, if_true] at hfail
+    injection hfail with hfail; exact SPc.noConfusion hfail
+  · omega
+
+/-- **when all operations have completed** (no claim in progress) the free counter equals the capacity minus the
+    messages still held -/
+theorem quiescent_count (s : St) (h : MqInv s) (hq : nPerm s.senders = 0 ∧ nFail s.senders = 0) :
+    s.numFree.toNat = s.qlen.toNat - (s.claimed - s.released) := by
+  have hc := h.counter; have hb := h.bound; have ho1 := h.order1; have ho2 := h.order2; have hq32 := h.q32
+  rw [hq.1, hq.2] at hc
+  rw [BitVec.toInt_eq_toNat_cond] at hc
+  have := s.numFree.isLt
+  split at hc <;> omega
+
+/-! ### why fix d97db7e was needed: the arithmetic before it violates exclusive ownership -/
+
+/-- depth 2, four senders; senders 0 and 1 each claim a buffer and keep it: the queue is full -/
+def d2Setup : List Act :=
+  [.sender 0 false 0, .sender 0 false 0, .sender 0 false 0, .sender 1 false 0, .sender 1 false 0, .sender 1 false 0]
+
+/-- the five-step schedule of D2: A = sender 2 does its fetch_sub (0 → 255); B = sender 3 runs a whole claim
+    (fetch_sub, load, compare-exchange); A does its fetch_add -/
+def d2Schedule : List Act :=
+  [.sender 2 false 0, .sender 3 false 0, .sender 3 false 0, .sender 3 false 0, .sender 2 false 0]
+
+/-- **with the unsigned read of the counter (the code before d97db7e) the D2 schedule hands sender 3 the buffer that
+    sender 0 still owns** and leaves the counter at 255 for ever -/
+theorem claim_wrap_counterexample :
+    holds (run (run (init 2 4 4 false) d2Setup) d2Schedule) (.sender 0) = some 0 ∧
+    holds (run (run (init 2 4 4 false) d2Setup) d2Schedule) (.sender 3) = some 0 ∧
+    (run (run (init 2 4 4 false) d2Setup) d2Schedule).numFree = 255 := by decide
+
+/-- the same schedule on the current code: sender 3's fetch_sub reads -1 and fails too (its third step merely starts
+    another, equally failing, claim); once it has undone that, nobody shares a buffer and the counter is back at 0 -/
+theorem d2_schedule_fixed :
+    holds (run (run (init 2 4 4 true) d2Setup) (d2Schedule ++ [.sender 3 false 0])) (.sender 0) = some 0 ∧
+    holds (run (run (init 2 4 4 true) d2Setup) (d2Schedule ++ [.sender 3 false 0])) (.sender 3) = none ∧
+    (run (run (init 2 4 4 true) d2Setup) (d2Schedule ++ [.sender 3 false 0])).numFree = 0 := by decide
+
+/-! ### non-vacuity -/
+
+/-- a reachable state with two claims in flight on a full queue, a held buffer and a message in flight satisfies
+    the invariant (by `mq_inv_all`), and the parties named by the corollaries really hold buffers there -/
+example : MqInv (run (init 2 4 3) [.sender 0 false 7, .sender 0 false 7, .sender 0 false 7, .sender 0 false 7,
+    .sender 0 false 7, .sender 1 false 8, .sender 1 false 8, .sender 1 false 8, .recv true, .recv true,
+    .sender 2 false 9, .sender 1 false 8]) :=
+  mq_inv_all 2 4 3 (by omega) (by omega) (by omega) (by omega) (by omega) _
+
+example : holds (run (init 2 4 3) [.sender 0 false 7, .sender 0 false 7, .sender 0 false 7, .sender 0 false 7,
+    .sender 0 false 7, .sender 1 false 8, .sender 1 false 8, .sender 1 false 8, .recv true, .recv true,
+    .sender 2 false 9, .sender 1 false 8]) .receiver = some 0 := by decide
+
+example : holds (run (init 2 4 3) [.sender 0 false 7, .sender 0 false 7, .sender 0 false 7, .sender 0 false 7,
+    .sender 0 false 7, .sender 1 false 8, .sender 1 false 8, .sender 1 false 8, .recv true, .recv true,
+    .sender 2 false 9, .sender 1 false 8]) (.sender 1) = some 1 := by decide
+
+/-- the receiver reads 7, the value sender 0 wrote -/
+example : (run (init 2 4 3) [.sender 0 false 7, .sender 0 false 7, .sender 0 false 7, .sender 0 false 7,
+    .sender 0 false 7, .recv false, .recv false]).recv = .read 0 0 7 := by decide
+
+/-- a failing fetch_sub exists: depth 1, sender 0 holds the only buffer, sender 1 tries to claim -/
+example : (step (run (init 1 4 2) [.sender 0 false 0, .sender 0 false 0, .sender 0 false 0]) (.sender 1 false 0)).senders[1]?
+    = some .failed := by decide
 
 end Librfn.C04
